@@ -3,7 +3,9 @@ package checks
 import (
 	"encoding/json"
 	"fmt"
+	"io"
 	"net/http"
+	"slices"
 	"sort"
 	"strings"
 	"testing"
@@ -24,13 +26,18 @@ type c19Ev struct {
 	Origin string `json:"origin"` // long | stale | swr | post200 | post500
 	Vary   string `json:"vary"`
 	Val    string `json:"val"` // answer to a conditional request: 304 | 200
+	Nest   bool   `json:"nest,omitempty"` // while the conditional request is at the origin, a POST for the same URI completes through the same transport
 }
 
 func (e c19Ev) String() string {
 	if e.Method == "POST" {
 		return fmt.Sprintf("POST %s->%s", shortURL(e.URL), strings.TrimPrefix(e.Origin, "post"))
 	}
-	return fmt.Sprintf("GET %s A=%s [%s vary=%q cond->%s]", shortURL(e.URL), e.A, e.Origin, e.Vary, e.Val)
+	n := ""
+	if e.Nest {
+		n = " +POST meanwhile"
+	}
+	return fmt.Sprintf("GET %s A=%s [%s vary=%q cond->%s%s]", shortURL(e.URL), e.A, e.Origin, e.Vary, e.Val, n)
 }
 
 func shortURL(u string) string {
@@ -57,6 +64,14 @@ func c19Apply(w *world.W, e c19Ev) *world.Obs {
 			return o.Respond(c, RS{Status: st, NoTok: true, Body: []byte("post"), H: h}), nil
 		}
 		cond := c.Header.Get("If-None-Match") != "" || c.Header.Get("If-Modified-Since") != ""
+		if cond && e.Nest {
+			// an unsafe request for the same URI is answered 200 while this validation is in flight
+			pr := world.Req("POST", e.URL)
+			if resp, err := w.RT.RoundTrip(pr); err == nil && resp != nil && resp.Body != nil {
+				_, _ = io.Copy(io.Discard, resp.Body)
+				_ = resp.Body.Close()
+			}
+		}
 		var h [][2]string
 		switch e.Origin {
 		case "long":
@@ -170,6 +185,23 @@ func c19RunCycle(t *testing.T, path []c19Ev, pump, cycleLen int) (foot c19Foot, 
 	return
 }
 
+// c19Drain replays path and then invalidates every URI of the alphabet with a successful POST; it returns the
+// keys that are still stored afterwards. Nothing is assumed about key or index formats.
+func c19Drain(t *testing.T, path []c19Ev, urls []string) (left []string) {
+	synctest.Test(t, func(t *testing.T) {
+		w := world.New(world.Opt{})
+		defer w.Close()
+		for _, e := range path {
+			c19Apply(w, e)
+		}
+		for _, u := range urls {
+			c19Apply(w, c19Ev{Method: "POST", URL: u, Origin: "post200"})
+		}
+		left = w.Conn.Keys()
+	})
+	return
+}
+
 type c19Scenario struct {
 	Name   string
 	Events []c19Ev
@@ -178,12 +210,12 @@ type c19Scenario struct {
 func c19Scenarios(tier string) []c19Scenario {
 	const U2 = "http://example.com/other"
 	var scs []c19Scenario
-	get := func(u, a, origin, vary, val string) c19Ev { return c19Ev{"GET", u, a, origin, vary, val} }
+	get := func(u, a, origin, vary, val string) c19Ev { return c19Ev{"GET", u, a, origin, vary, val, false} }
 	post := func(u string, ok bool) c19Ev {
 		if ok {
-			return c19Ev{"POST", u, "", "post200", "", ""}
+			return c19Ev{"POST", u, "", "post200", "", "", false}
 		}
-		return c19Ev{"POST", u, "", "post500", "", ""}
+		return c19Ev{"POST", u, "", "post500", "", "", false}
 	}
 	as := []string{"1", "2"}
 	origins := []string{"long", "stale", "swr"}
@@ -196,15 +228,22 @@ func c19Scenarios(tier string) []c19Scenario {
 			if vp[1] != vp[0] {
 				vs = append(vs, vp[1])
 			}
-			for _, v := range vs {
+			for vi, v := range vs {
 				for _, a := range as {
 					evs = append(evs, get(U, a, og, v, "304"))
 				}
 				if og != "long" {
 					evs = append(evs, get(U, "1", og, v, "200"))
+					nest := get(U, "1", og, v, "304")
+					nest.Nest = true
+					evs = append(evs, nest)
+					if vi == 0 {
+						nest.Val = "200"
+						evs = append(evs, nest)
+					}
 				}
 			}
-			evs = append(evs, post(U, true), post(U, false), get(U2, "", "long", "", "304"), c19Ev{"POST", U2, "", "post200loc", "", ""})
+			evs = append(evs, post(U, true), post(U, false), get(U2, "", "long", "", "304"), c19Ev{"POST", U2, "", "post200loc", "", "", false})
 			scs = append(scs, c19Scenario{fmt.Sprintf("%s vary{%q,%q}", og, vp[0], vp[1]), evs})
 		}
 	}
@@ -260,9 +299,18 @@ func customC19(t *testing.T, e *mc.Explorer) *mc.ShardResult {
 			variants[ev.A] = true
 		}
 		guard := 2 * (len(varys) + 1) * len(variants)
+		urlSet := map[string]bool{}
+		var urls []string
+		for _, ev := range sc.Events {
+			if !urlSet[ev.URL] {
+				urlSet[ev.URL] = true
+				urls = append(urls, ev.URL)
+			}
+		}
 		seen := map[string]bool{}
 		f0, _, _ := c19Run(t, nil, 0)
 		seen[f0.snapshot] = true
+		leftOf := map[string][]string{f0.snapshot: nil}
 		frontier := [][]c19Ev{nil}
 		maxKeys, maxIdx, depth := 0, 0, 0
 		bad, capped := false, false
@@ -273,6 +321,8 @@ func customC19(t *testing.T, e *mc.Explorer) *mc.ShardResult {
 			}
 			cur := frontier[0]
 			frontier = frontier[1:]
+			curFoot, _, _ := c19Run(t, cur, 0)
+			curSnap := curFoot.snapshot
 			for _, ev := range sc.Events {
 				path := append(append([]c19Ev{}, cur...), ev)
 				foot, _, leak := c19Run(t, path, 0)
@@ -307,6 +357,27 @@ func customC19(t *testing.T, e *mc.Explorer) *mc.ShardResult {
 						}
 					}
 					if bad {
+						break
+					}
+				}
+				// keys that no invalidation can reach any more: tolerated (and bounded by the fixpoint) when a
+				// replacement orphaned them, a violation when the exchange that produced them contains an invalidation
+				left, known := leftOf[foot.snapshot]
+				if !known {
+					left = c19Drain(t, path, urls)
+					leftOf[foot.snapshot] = left
+					res.Executions++
+				}
+				if ev.Nest || ev.Origin == "post200" || ev.Origin == "post200loc" {
+					var fresh []string
+					for _, k := range left {
+						if !slices.Contains(leftOf[curSnap], k) {
+							fresh = append(fresh, k)
+						}
+					}
+					if len(fresh) > 0 {
+						c19Add(viol, e, "an exchange containing an invalidation leaves keys behind that no invalidation reaches", fmt.Sprintf("after %v the store holds %q: a successful POST to each of %v does not remove them, and before the last exchange (which contains an invalidation) every such key was still removable", path, fresh, urls), sc, append(append([]c19Ev{}, path...), c19Ev{Method: "DRAIN"}))
+						bad = true
 						break
 					}
 				}
@@ -438,6 +509,27 @@ func replayC19(t *testing.T, v *mc.Violation) bool {
 		})
 		fmt.Printf("  | cycle %v, 1 s between exchanges: index entries after 4/8/12 repetitions %d/%d/%d, keys %d/%d/%d\n", cy, f[0].maxIndex, f[1].maxIndex, f[2].maxIndex, f[0].keys, f[1].keys, f[2].keys)
 		return (f[1].maxIndex > f[0].maxIndex && f[2].maxIndex > f[1].maxIndex) || (f[1].keys > f[0].keys && f[2].keys > f[1].keys)
+	}
+	if n := len(path); n > 0 && path[n-1].Method == "DRAIN" {
+		path = path[:n-1]
+		urlSet := map[string]bool{}
+		var urls []string
+		for _, ev := range path {
+			if !urlSet[ev.URL] {
+				urlSet[ev.URL] = true
+				urls = append(urls, ev.URL)
+			}
+		}
+		left := c19Drain(t, path, urls)
+		before := c19Drain(t, path[:len(path)-1], urls)
+		var fresh []string
+		for _, k := range left {
+			if !slices.Contains(before, k) {
+				fresh = append(fresh, k)
+			}
+		}
+		fmt.Printf("  | path %v\n  | then a successful POST to each of %v\n  | keys left in the store: %q (without the last exchange of the path: %q)\n", path, urls, left, before)
+		return len(fresh) > 0
 	}
 	foot, pumped, leak := c19Run(t, path, 3)
 	for cl := 2; cl <= 3 && cl <= len(path); cl++ {
